@@ -393,6 +393,53 @@ pub fn c11(r: &mut Rng, sz: &Sizes, out: &mut Vec<String>) {
     }
 }
 
+pub fn c12(r: &mut Rng, sz: &Sizes, out: &mut Vec<String>) {
+    for (a, b) in pairs(r, sz) {
+        out.push(format!("ticks_subset\t{}\t{}", sx(&a), sx(&b)));
+        out.push(format!("ticks_merger\t{}\t{}", sx(&a), sx(&b)));
+    }
+    let (samples, parts) = reachable(r, 800);
+    for _ in 0..sz.pairs {
+        let s0 = r.pick(&samples);
+        let a = r.pick(&parts);
+        out.push(format!("ticks_subset\t{}\t{}", sx(s0), sx(a)));
+        out.push(format!("ticks_merger\t{}\t{}", sx(a), sx(s0)));
+    }
+    for d in docs(r, sz) {
+        out.push(format!("ticks_infer\t{}", hex_doc(&d, r.below(4))));
+        out.push(format!("ticks_inferv\t{}", hex_doc(&d, 0)));
+    }
+    // deep nesting: the D10 witness family
+    for k in 1..=24 {
+        let mut t = String::from("1");
+        for _ in 0..k {
+            t = format!("[{t},1]");
+        }
+        out.push(format!("ticks_inferv\t{}", crate::wire::hex(t.as_bytes())));
+        out.push(format!("ticks_infer\t{}", crate::wire::hex(t.as_bytes())));
+    }
+    let big = sz.histories > 10_000;
+    for fam in ["infer_depth", "inferv_depth"] {
+        for n in 1..=20 {
+            out.push(format!("allocs\t{fam}\t{n}"));
+        }
+    }
+    for fam in ["infer_objdepth", "inferv_objdepth", "subset_depth"] {
+        for n in 1..=10 {
+            out.push(format!("allocs\t{fam}\t{n}"));
+        }
+    }
+    let widths: &[usize] = if big { &[10, 100, 1000, 10_000] } else { &[10, 100, 1000] };
+    for fam in ["infer_width", "inferv_width"] {
+        for n in widths {
+            out.push(format!("allocs\t{fam}\t{n}"));
+        }
+    }
+    for n in [10, 100, 1000] {
+        out.push(format!("allocs\tsources\t{n}"));
+    }
+}
+
 pub fn generate(prop: &str, tier: &str, seed: u64) -> Vec<String> {
     let mut r = Rng(seed ^ 0x5eed_0000 ^ (prop.bytes().fold(0u64, |a, b| a * 131 + b as u64)));
     let sz = sizes(tier);
@@ -406,6 +453,7 @@ pub fn generate(prop: &str, tier: &str, seed: u64) -> Vec<String> {
         "C06" => c06(&mut r, &sz, &mut out),
         "C09" => c09(&mut r, &sz, &mut out),
         "C11" => c11(&mut r, &sz, &mut out),
+        "C12" => c12(&mut r, &sz, &mut out),
         "C08" => c08(&mut r, &sz, &mut out),
         "C17" => c17(&mut r, &sz, &mut out),
         "core" => core(&mut r, &sz, &mut out),
